@@ -78,6 +78,7 @@ func (v val) kept() []error {
 type builder struct {
 	ctr   int
 	slots []slotRecord // the slices custom multi-errors expose, with a copy taken at construction
+	inner []error      // inner stack nodes handed out by errors.Unwrap
 }
 
 // batchError is a typed multi-error of the kind produced by code that keeps
@@ -258,6 +259,40 @@ func (b *builder) build(s Spec) val {
 			}
 		}
 		return v
+	case "tail": // errors.Unwrap(stack): the inner node holding all but the newest constituent
+		// built over leaf children only, so that what each constituent
+		// carries below it is the constituent itself
+		st := &ers.Stack{}
+		var pushed []error
+		var types [3]bool
+		for _, c := range cs {
+			if c.err == nil || len(c.under) != 0 || c.dissolves {
+				continue
+			}
+			st.Push(c.err)
+			pushed = append(pushed, c.err)
+			for i := range types {
+				types[i] = types[i] || c.types[i]
+			}
+		}
+		if len(pushed) < 2 {
+			return val{depth: depth, hasNil: true}
+		}
+		inner := errors.Unwrap(st)
+		b.inner = append(b.inner, inner)
+		rest := reverse(pushed)[1:] // newest first, without the newest
+		var rtypes [3]bool
+		for _, e := range rest {
+			switch e.(type) {
+			case *typedA:
+				rtypes[0] = true
+			case *typedB:
+				rtypes[1] = true
+			case *typedC:
+				rtypes[2] = true
+			}
+		}
+		return val{err: inner, dissolves: true, under: append([]error{}, rest...), flat: append([]error{}, rest...), types: rtypes, depth: depth + 1, hasNil: hasNil}
 	case "join": // ers.Join(children...)
 		var args []error
 		for _, c := range cs {
@@ -372,7 +407,7 @@ var ersKinds = map[string]bool{"join": true, "stack": true, "rawstack": true, "a
 func isStack(e error) bool { _, ok := e.(*ers.Stack); return ok }
 
 var kinds1 = []string{"wrap", "asstack", "wrapnote", "wrapfnote", "panic-error"}
-var kindsN = []string{"join", "join", "ejoin", "batch", "stack", "rawstack", "collector"}
+var kindsN = []string{"join", "join", "ejoin", "batch", "tail", "stack", "rawstack", "collector"}
 
 func genSpec(t *rapid.T, depth int) Spec {
 	k := rapid.IntRange(0, 11).Draw(t, "kind")
@@ -517,7 +552,13 @@ func checkSpecStep(t vkit.TB, s Spec) (v val) {
 	uw := ers.Unwind(v.err)
 	if st, ok := v.err.(*ers.Stack); ok {
 		// stack results list every constituent exactly once
-		if len(uw) != len(v.flat) || st.Len() != len(v.flat) {
+		// (Len is the cached height of a stack built through the ers API;
+		// the inner node errors.Unwrap hands out does not carry it)
+		isInner := false
+		for _, in := range b.inner {
+			isInner = isInner || in == v.err
+		}
+		if len(uw) != len(v.flat) || (!isInner && st.Len() != len(v.flat)) {
 			fail("unwind", "Unwind lists %d errors (Len %d), the tree supplies %d constituents: %v", len(uw), st.Len(), len(v.flat), uw)
 		}
 		// v.flat is the order in which this stack would be pushed
@@ -631,6 +672,8 @@ func runColl(t vkit.TB, c collCase, reps int) {
 		var want []error
 		var wmu sync.Mutex
 		var wg sync.WaitGroup
+		type origin struct{ g, seq int }
+		var seqOf sync.Map // error -> origin
 		start := make(chan struct{})
 		ctx, cancel := context.WithCancel(context.Background())
 		for g, items := range c.Adders {
@@ -638,6 +681,7 @@ func runColl(t vkit.TB, c collCase, reps int) {
 			go func(g int, items []int) {
 				defer wg.Done()
 				<-start
+				uniq := 0
 				for i, k := range items {
 					vkit.Yield(c.Yields[(g+i)%len(c.Yields)])
 					var e error
@@ -657,6 +701,12 @@ func runColl(t vkit.TB, c collCase, reps int) {
 						e = fmt.Errorf("g%d-%d: %w", g, i, sentinels[0])
 						mine = []error{e}
 					}
+					for _, u := range mine {
+						if k != 2 { // sentinels repeat
+							seqOf.Store(u, origin{g, uniq})
+							uniq++
+						}
+					}
 					if i%2 == 0 {
 						ec.Add(e)
 					} else {
@@ -668,6 +718,11 @@ func runColl(t vkit.TB, c collCase, reps int) {
 				}
 			}(g, items)
 		}
+		// seqOf tells, for the errors that exist only once (pointer errors
+		// made by one adder), which adder made them and as its how-manieth:
+		// an iterator snapshot must hold each at most once, and never a
+		// later error of an adder without the earlier ones (they were all
+		// in the collector when the later one was added)
 		var rwg sync.WaitGroup
 		for i := 0; i < c.Readers; i++ {
 			rwg.Add(1)
@@ -676,6 +731,41 @@ func runColl(t vkit.TB, c collCase, reps int) {
 				<-start
 				last := 0
 				for ctx.Err() == nil {
+					snap, _ := ec.Iterator().Slice(context.Background())
+					seen := map[error]bool{}
+					newest := map[int]int{}
+					have := map[origin]bool{}
+					for _, e := range snap {
+						if e == nil {
+							cancel()
+							vkit.SaveCase(tColl, "C12:collector", "an iterator snapshot taken during concurrent Adds contains a nil error", c)
+							return
+						}
+						o, unique := seqOf.Load(e)
+						if !unique {
+							continue
+						}
+						if seen[e] {
+							cancel()
+							vkit.SaveCase(tColl, "C12:collector", fmt.Sprintf("an iterator snapshot taken during concurrent Adds lists %q twice (%d errors)", e, len(snap)), c)
+							return
+						}
+						seen[e] = true
+						og := o.(origin)
+						have[og] = true
+						if og.seq+1 > newest[og.g] {
+							newest[og.g] = og.seq + 1
+						}
+					}
+					for g, n := range newest {
+						for k := 0; k < n; k++ {
+							if !have[origin{g, k}] {
+								cancel()
+								vkit.SaveCase(tColl, "C12:collector", fmt.Sprintf("an iterator snapshot taken during concurrent Adds holds error %d of adder %d but not its earlier error %d", n-1, g, k), c)
+								return
+							}
+						}
+					}
 					n := ec.Len()
 					if n < last {
 						cancel()
@@ -697,7 +787,7 @@ func runColl(t vkit.TB, c collCase, reps int) {
 		cancel()
 		rwg.Wait()
 		if bad {
-			t.Fatalf("[C12:collector] Len decreased during concurrent Adds")
+			t.Fatalf("[C12:collector] a reader saw an inconsistent collector during concurrent Adds (see the saved case)")
 		}
 		res := ec.Resolve()
 		if (res == nil) != (len(want) == 0) {
